@@ -356,7 +356,9 @@ class Director:
   def _process_features(self, features: set[str]):
     invalid = features - _ALLOWED_FEATURES
     if invalid:
-      raise _DirectiveError(f"Unknown pytype features: {','.join(invalid)}")
+      raise _DirectiveError(
+          f"Unknown pytype features: {','.join(sorted(invalid))}"
+      )
     self.features |= features
 
   def _process_pragmas(
@@ -365,7 +367,9 @@ class Director:
     del line_range  # unused
     invalid = pragmas - _PRAGMAS
     if invalid:
-      raise _DirectiveError(f"Unknown pytype pragmas: {','.join(invalid)}")
+      raise _DirectiveError(
+          f"Unknown pytype pragmas: {','.join(sorted(invalid))}"
+      )
     for pragma in pragmas:
       lines = self._pragmas[pragma]
       lines.set_line(line, True)
@@ -392,7 +396,7 @@ class Director:
           "Disable/enable must specify one or more error names."
       )
 
-    for error_name in values:
+    for error_name in sorted(values):
       if error_name == _ALL_ERRORS or self._errorlog.is_valid_error_name(
           error_name
       ):
